@@ -634,6 +634,7 @@ class Getter(object):
 
     def _listener(self, qname='default'):
         sim = _sim()
+        sim.sleep(0.01)       # as ru.zmq.Getter._listener does
         while not self._term:
             sim.block(lambda: bool(self._bridge.bufs.get(qname)) or self._term,
                       None, what='q.listen')
